@@ -876,6 +876,14 @@ Proof.
   - now apply ni_add_block.
   - destruct (negb _); [exact Ns|]. destruct (pparts s0); [|exact Ns].
     split; [now apply Inv1_panic|split; [now apply ProofsValid.Inv6_panic|now apply K_panic]].
+  - assert (Hsame : forall x, x = s0 -> NI x) by (intros x ->; exact Ns).
+    unfold add_bad_block.
+    destruct (negb _); [exact Ns|]. destruct (pparts s0) as [ps|]; [|exact Ns].
+    destruct (negb _); [exact Ns|]. destruct (ps_complete s0 ps); [exact Ns|].
+    split; [|split].
+    + eapply Inv1_core; [|exact I0]. repeat split.
+    + eapply ProofsValid.Inv6_eq; [|exact J0]. repeat split.
+    + apply (K_irrel s0); auto. cbn. lia.
   - destruct (bid_wf _); [now apply ni_add_vote|exact Ns].
   - destruct (existsb _ _) eqn:E; [|exact Ns].
     apply existsb_exists in E. destruct E as (ti & Hin & Eq). apply tinfo_eqb_eq in Eq. subst ti.
